@@ -33,6 +33,8 @@ def make_config(rng, profile, tier):
         cfg['N'] = max(cfg['N'], 3)
     if profile == 'est':
         cfg['N'] = max(cfg['N'], 6)
+        # the same parameter declared by two Beta objects (a helper called twice): merged by name everywhere
+        cfg['dup_objects'] = rng.random() < 0.3
         cfg['weight'] = rng.choice([None, None, 'col'])
         cfg['bound_plan'] = [rng.choice(['none', 'none', 'wide', 'active_upper', 'active_lower', 'one_sided', 'zero'])
                              for _ in range(cfg['K'])]
@@ -711,6 +713,11 @@ class Session:
             if iv != est[nm]:
                 ctx.fail('I07.writeback', f'estimate [{algo}]: starting value of {nm} is {iv!r} after estimation, '
                                           f'the estimate is {est[nm]!r}')
+        for nm, twin in rec['betas'].get('__twins__', []):
+            if float(twin.initValue) != est[nm]:
+                ctx.fail('I07.writeback', f'estimate [{algo}]: parameter {nm} is declared by two Beta objects; after estimation '
+                                          f'the second one holds {twin.initValue!r}, the estimate is {est[nm]!r}')
+            ctx.probe('twin Beta objects followed through the write-back')
         for nm, val in fixed_before.items():
             if rec['betas'][nm].initValue != val or rec['betas'][nm].status == 0:
                 ctx.fail('I07.writeback', f'fixed parameter {nm} changed from {val!r} to {rec["betas"][nm].initValue!r}')
